@@ -107,7 +107,7 @@ def substrEq (label arg : Str) : Bool := label == arg.take label.length
 
 /-- `Workflow._find_owning_static_tree(path)`: labels of attached trees that own `path`. -/
 def owningTrees (trees : List Str) (path : Str) : List Str :=
-  trees.filter fun t => substrEq t (addSlash path)
+  trees.filter fun t => substrEq t path
 
 /-- `register_static_tree`: the three LIKE scans share one pattern built from `Path(path) / ""`. -/
 def underTreeLike (cs : Bool) (path : Str) (labels : List Str) : List Str :=
@@ -132,7 +132,7 @@ def cleanMatching (cs : Bool) (arg : Str) (labels : List Str) : List Str :=
 
 /-- `_is_justified_without_node` arm A: the match is inside (or is) a static tree. -/
 def insideTree (trees : List Str) (path : Str) : Bool :=
-  trees.any fun t => t.isPrefixOf (ensureSlash path)
+  trees.any fun t => t.isPrefixOf path
 
 /-- arm B (directory matches only): the match contains a static tree. -/
 def containsTree (trees : List Str) (path : Str) : Bool :=
